@@ -255,7 +255,7 @@ def defaults_well_formed(tree) -> str | None:
 
     * an array whose length is an expression over other members defaults to the empty list whatever the expression evaluates to on
       the members' defaults (`uint8 n; uint8 a[(n & 1) + 1]`: T() has n = 0 and a = []), which is not a value any parse can return;
-    * PENDING (behaviour of the unmodified library met by this probe, reported, not decided yet): the default of a `char` bit-field
+    * known finding F53 (known_findings.json; met by this probe first): the default of a `char` bit-field
       member is b'\\x00' (a parse gives an int), and dumping it raises TypeError - `struct T { char a : 3; char b : 5; }`:
       `T().dumps()` -> TypeError("'<=' not supported between instances of 'int' and 'char'").  Parsed and keyword-built values of
       such definitions are checked; only their default instance is not."""
